@@ -186,7 +186,8 @@ def _gen(tier, rng):
                     s = F.of(0)
                     for t in range(k):
                         s = F.add(s, F.mul(cur[t], cur[t]))
-                    for delta in (0, -1, 1, Fraction(-1, 10 ** 9), Fraction(1, 10 ** 9)):
+                    tiny = (Fraction(-1, 10 ** 9), Fraction(1, 10 ** 9)) if not (F is Rat and n == 4) else ()
+                    for delta in (0, -1, 1) + tiny:
                         b = [list(r) for r in a]
                         b[k][k] = F.add(s, F.of(delta))
                         yield case(1, F, names_of(rng), b)
